@@ -134,6 +134,10 @@ def step (st : State) (w : List String) : State × String :=
     match (listOf answers ";").mapM parseAns with
     | some as => (st, "keep=" ++ dash (keptIdx (keepCacheable (str qname)) as))
     | none => (st, "bad-op")
+  | ["relay", "run", zone, answers] =>
+    match (listOf answers ";").mapM parseAns with
+    | some as => (st, "keep=" ++ dash (keptIdx (fun r => nameInZone (lower r.owner) (lower (str zone))) as))
+    | none => (st, "bad-op")
   | ["clr", "run", edns, flag, nns, nextra] =>
     match parseBool edns, nns.toNat?, nextra.toNat? with
     | some e, some n, some x =>
